@@ -43,3 +43,37 @@ def device_fields(o: Outcome, ev: Event) -> Tuple[str, Dict[str, Term]]:
         return "?", {}
     ho = o.state.heap[v[1]]
     return (ho.cls.name if ho.cls else "?"), dict(ho.fields)
+
+
+# ---------------------------------------------------------------------------
+# lifecycle (C07 / C17)
+def bridge_self(I: Interp, st: State, prog: Program, fresh_instance: bool = False) -> Term:
+    """fresh_instance: _transports is the empty dict __init__ creates (used for start());
+    otherwise its content is unknown (used for stop())."""
+    ci = prog.cls(f"{BRIDGE}:SwitcherBridge")
+    ports = ("sym", "ports", ("list", ("int", 1, 65535), "distinct"))
+    transports = st.alloc(HeapObj("dict", None, {}, [], not fresh_instance, "self._transports", False))
+    return st.alloc(HeapObj("obj", ci, {
+        "_on_device": ("sym", "on_device", "callable"),
+        "_broadcast_ports": ports,
+        "_is_running": ("sym", "is_running0", "bool"),
+        "_transports": transports,
+    }, [], False, "self", False))
+
+
+def run_bridge_method(prog: Program, name: str, extra: Optional[Dict[str, Term]] = None, fresh_instance: bool = False) -> Tuple[Interp, List[Outcome], Any]:
+    ci = prog.cls(f"{BRIDGE}:SwitcherBridge")
+    fi = ci.find_method(name)
+    if fi is None:
+        raise AnalysisError(f"anchor vanished: SwitcherBridge.{name}")
+    I = Interp(prog)
+    st = I.new_state()
+    selfv = bridge_self(I, st, prog, fresh_instance)
+    args: Dict[str, Term] = {fi.params[0]: selfv}
+    for p in fi.params[1:]:
+        args[p] = (extra or {}).get(p, ("sym", p, "any"))
+    return I, I.run(fi, args, st), fi
+
+
+def ev_calls(o: Outcome, suffix: str) -> List[Event]:
+    return [e for e in o.state.events if e.kind == "call" and e.target.endswith(suffix)]
